@@ -85,6 +85,13 @@ Theorem C13_no_internal_error : forall cs : list (call * fault),
 Proof. exact no_internal_error. Qed.
 Print Assumptions C13_no_internal_error.
 
+(* A second start() - on a running observer, or after stop() - raises RuntimeError and is the
+   identity on the whole state, under every fault and iteration order. *)
+Theorem C13_second_start_identity : forall s ord flt, thr_started s = true ->
+  step true true s (Start ord, flt) = (s, Raised EAlready).
+Proof. exact second_start_identity. Qed.
+Print Assumptions C13_second_start_identity.
+
 (* Finding F2 - the pinned schedule() registers the handler before the emitter exists: refuted.
    Witness: schedule(h1, w) with a failing constructor, then schedule(h2, w): h1 is served. *)
 Theorem C13_pinned_failed_schedule_refuted :
@@ -116,7 +123,10 @@ Print Assumptions C13_pinned_failed_start_refuted.
 Definition wa : watch := (1%N, false, 0%N).
 Definition wb : watch := (2%N, true, 0%N).
 
-(* a run in which every kind of error occurs and the final map is not empty *)
+(* a run in which every kind of error occurs and the final map is not empty: the first start() fails
+   on the second emitter (wa is de-scheduled), the retry meets the emitter of wb that the failed
+   attempt had already started (RuntimeError of that emitter: wb is de-scheduled), the third start()
+   succeeds, the last one is refused up front and changes nothing *)
 Example C13_refines_nonvacuous :
   let cs := [(Schedule 1 wa, FailCtor); (Schedule 2 wa, NoFault); (Schedule 1 wb, NoFault);
              (Unschedule (3, false, 0), NoFault); (RemoveHandler 1 wa, NoFault);
@@ -126,8 +136,8 @@ Example C13_refines_nonvacuous :
   snd (run_impl true true cs) =
     [Raised ECtor; Ok; Ok; Raised EKeyWatch; Raised EKeyHandler; Raised EStart; Raised EAlready;
      Ok; Ok; Raised EStart; Ok; Raised EAlready] /\
-  sched (fst (run_spec cs)) = [(wb, true)] /\ hs (fst (run_spec cs)) wb = [2%N] /\
-  receivers (fst (run_impl true true cs)) = [(wb, [2%N])].
+  sched (fst (run_spec cs)) = [(wa, true); (wb, true)] /\ hs (fst (run_spec cs)) wb = [2%N] /\
+  receivers (fst (run_impl true true cs)) = [(wa, [1%N]); (wb, [2%N])].
 Proof. vm_compute. repeat split. Qed.
 
 (* the hypotheses of C13_failed_schedule_no_delivery are satisfiable (the F2 replay) and the
